@@ -82,6 +82,23 @@ func TestC15(t *testing.T) {
 		judge(w, strings.NewReplacer("<", "\x00", "=", ":").Replace(src[i]))
 	})
 
+	hb := htmlBoundaryInputs()
+	p = c.rec.NewPart("boundary_near_misses", "length-, count- and code-point boundary inputs (see C07) with '<' and '=' deleted / replaced; alias runes whose low byte is '=' or '<' after attribute names", false, true, "")
+	c.ParRange(p, int64(len(hb)), func(w *Worker, i int64) {
+		judge(w, c15Drop.Replace(hb[i]))
+		judge(w, c15Strip.Replace(hb[i]))
+	})
+	var al []string
+	for _, r := range gen.RuneAliases {
+		for _, nm := range []string{"onclick", "onerror", "href", "style", "src", "xmlns"} {
+			for _, sep := range []string{" ", "", "\x00", "\t "} {
+				al = append(al, nm+sep+r+"javascript:alert(1)", "x` "+nm+sep+r+"javascript:void(0)", "it's the "+nm+sep+r+"ubomir mentioned", "' "+nm+sep+r+" '", nm+sep+r)
+			}
+		}
+	}
+	p = c.rec.NewPart("alias_rune_near_misses", "black attribute name + separator + multi-byte character whose code point truncates to a structural byte + value", false, true, "")
+	c.ParRange(p, int64(len(al)), func(w *Worker, i int64) { judge(w, al[i]) })
+
 	g := gen.HTMLInput()
 	p = c.rec.NewPart("rapid_fragments", "rapid: fragment grammar / mutated vector with the two bytes replaced by a drawn substitute", true, false, "")
 	c.Rapid(p, 8, pick(100000, 1000000), func(rt *rapid.T, sh int) ev.Case {
